@@ -60,6 +60,11 @@ def tasks(tier, seed):
                     seqs.append([(a, []), (b, [])])
                 for _ in range(3):
                     seqs.append([(c, []) for c in rng.sample(names, 3)])
+            # interactions between a profile criterion and a cost criterion with a lecturer weight / cut-offs
+            WITH_ARGS = [[('gre', []), ('mincost', [1, 1])], [('gen', []), ('minsqcost', [0, 1])], [('maxsize', []), ('gen', []), ('mincost', [0, 1])],
+                         [('mincost', [0, 1]), ('gre', [])], [('gre', [1]), ('mincost', [1, 2])], [('minsqcost', [1, 1]), ('gen', [])],
+                         [('lsb', []), ('mincost', [0, 2])], [('gen', [2]), ('mincostlsb', [1, 0])]]
+            seqs.append([(c_, list(a_)) for c_, a_ in WITH_ARGS[k % len(WITH_ARGS)]])
             # sometimes with arguments
             for s in seqs:
                 for j, (c, a) in enumerate(s):
